@@ -140,13 +140,20 @@ where
                 update_active_blob(&self.inner).await?;
             },
             OperationType::CloseActiveBlob => {
-                self.inner.close_active_blob().await?;
+                // The request may not apply in the current state (no active blob): that must not stop the worker
+                if let Err(e) = self.inner.close_active_blob().await {
+                    warn!("active blob was not closed in background: {:#}", e);
+                }
             },
             OperationType::CreateActiveBlob => {
-                self.inner.create_active_blob().await?;
+                if let Err(e) = self.inner.create_active_blob().await {
+                    warn!("active blob was not created in background: {:#}", e);
+                }
             },
             OperationType::RestoreActiveBlob => {
-                self.inner.restore_active_blob().await?;
+                if let Err(e) = self.inner.restore_active_blob().await {
+                    warn!("active blob was not restored in background: {:#}", e);
+                }
             },
             OperationType::TryDumpBlobIndexes => {
                 self.try_run_old_blob_indexes_dump_task().await;
